@@ -82,9 +82,14 @@ def _blocks(blocks, c: _C) -> str:
                        + "</text:list>")
         elif t == "tbl":
             ncols = max(len(r) for r in b[1])
-            rows = "".join("<table:table-row>" + "".join(
+            rowx = ["<table:table-row>" + "".join(
                 f'<table:table-cell office:value-type="string">{_blocks(cell, c) or "<text:p/>"}</table:table-cell>'
-                for cell in row) + "</table:table-row>" for row in b[1])
+                for cell in row) + "</table:table-row>" for row in b[1]]
+            # the first row of every other table is a repeated header row (table:table-header-rows wrapper)
+            c.n += 1
+            if c.n % 2 == 0:
+                rowx[0] = f"<table:table-header-rows>{rowx[0]}</table:table-header-rows>"
+            rows = "".join(rowx)
             out.append(f'<table:table table:name="T{id(b) % 997}"><table:table-column table:number-columns-repeated="{ncols}"/>'
                        f"{rows}</table:table>")
         elif t == "tbx":
